@@ -7,7 +7,8 @@ import Faithful.Lib.Cbor
 * `Ref.encode`  : the reference tuple encoding (ipld-prime bindnode + dag-cbor): absent trailing optionals dropped,
   interior absent ones and explicit nulls written as CBOR `null`
 * `Ref.decode`  : the schema-driven decoder (bindnode tuple assembler over the dag-cbor token stream), field by field
-  from the `FieldSpec`s of `schema` (compared with the specs the translator extracts from ledger.ipldsch)
+  from the `FieldSpec`s of `schema` (the correspondence run compares `schema` with the type system bindnode loaded
+  from ledger.ipldsch, type by type)
 * `Fast.decode` : line-by-line model of the hand-written decoders of `/repo/ipld/ipldbindcode/cbor.go` followed by the kind
   check of `/repo/iplddecoders/decoders.go:_Decode*Fast`; unchecked type assertions and slice expressions are explicit
   `panic` outcomes, integer casts are the Go ones (`uint64(int64)`, `int(uint64)`)
@@ -42,9 +43,6 @@ def isErr {α : Type} : Outcome α → Bool | .err _ => true | _ => false
 end Outcome
 
 /-! ## Go integer casts -/
-
-def two63 : Int := 9223372036854775808
-def two64 : Nat := 18446744073709551616
 
 /-- the value fits Go's `int` (= int64 on the platforms the repository builds for) -/
 def I64 (v : Int) : Prop := -9223372036854775808 ≤ v ∧ v < 9223372036854775808
@@ -204,7 +202,8 @@ def Node.kind : Node → Kind
   | .transaction _ => .transaction | .entry _ => .entry | .block _ => .block | .subset _ => .subset
   | .epoch _ => .epoch | .rewards _ => .rewards | .dataFrame _ => .dataFrame
 
-/-! ## the schema as data (field order, type, optional, nullable) — tied to ledger.ipldsch by the translator -/
+/-! ## the schema as data (field order, type, optional, nullable) — tied to ledger.ipldsch by the `schema` ops of the
+correspondence run (the harness prints the type system bindnode compiled from the embedded ledger.ipldsch) -/
 
 structure FieldSpec where
   name : String
